@@ -32,7 +32,7 @@ CONTENTS = [
 ]
 
 
-def dir_tree(depth, max_files=4, max_dirs=3, mixed_case=True, others=True, force_cmake_top=False):
+def dir_tree(depth, max_files=4, max_dirs=3, mixed_case=True, others=True, force_cmake_top=False, min_dirs=0):
     names = list(CMAKE_NAMES)
     file_pool = G.weighted((4, st.sampled_from(names)),
                            (1, st.sampled_from(MIXED_NAMES if mixed_case else names)),
@@ -42,7 +42,7 @@ def dir_tree(depth, max_files=4, max_dirs=3, mixed_case=True, others=True, force
         dirs = st.just({})
     else:
         dirs = st.dictionaries(st.sampled_from(DIR_NAMES), st.deferred(lambda: dir_tree(depth - 1, max_files, max_dirs, mixed_case, others)),
-                               max_size=max_dirs)
+                               min_size=min(min_dirs, max_dirs), max_size=max_dirs)
     return st.fixed_dictionaries({"files": files, "dirs": dirs}).map(lambda t: _norm(t, force_cmake_top))
 
 
